@@ -13,6 +13,7 @@ pub mod c13;
 pub mod c14;
 pub mod c15;
 pub mod c16;
+pub mod c17;
 pub mod c18;
 pub mod c19;
 pub mod c20;
@@ -36,6 +37,7 @@ pub fn run(id: &str, tier: Tier) -> Option<i32> {
         "C14" => c14::run(tier),
         "C15" => c15::run(tier),
         "C16" => c16::run(tier),
+        "C17" => c17::run(tier),
         "C18" => c18::run(tier),
         "C19" => c19::run(tier),
         "C20" => c20::run(tier),
@@ -92,6 +94,8 @@ pub fn replay(property: &str, part: &str, case: &serde_json::Value) -> Option<Re
         ("C09", "histories") => replay_part(&c09::Histories, case, 1),
         ("C13", "backoff-arithmetic") => replay_part(&c13::Backoff, case, 1),
         ("C13", "schedules") => replay_part(&c13::Schedules, case, 1),
+        ("C17", "definitions") => replay_part(&c17::Definitions, case, 1),
+        ("C17", "typed-calls") => replay_part(&c17::Calls, case, 1),
         _ => return None,
     })
 }
